@@ -67,6 +67,14 @@ theorem C20_func_rejects (ctx : Ctx) (c : ClsDesc) (word : Str) (line : Nat) (ar
   have : a.isEmpty = false := by cases a <;> simp_all
   simp [blockPre, funcPre, repeatPre, hc, hfl, hreq, hstrip, this, hbad]
 
+/-- FUNC: an invalid parameter name is rejected as well (after the function name passed) -/
+theorem C20_param_rejects (ctx : Ctx) (pos : Pos) (arg : Option Str) (block : List Node) (st : St) (vs : Str)
+    (hname : isVar (breakArg (arg.getD [])).1 false = true) (hvs : (breakArg (arg.getD [])).2 = some vs) (hne : vs ≠ [])
+    (hbad : ((splitChar ',' vs).map strip).all (fun p => isVar p false) = false) :
+    funcPre ctx pos arg block st = raise ctx pos st .unacceptableVarName := by
+  have : vs.isEmpty = false := by cases vs <;> simp_all
+  simp [funcPre, hname, hvs, this, hbad]
+
 /-- REPEAT / FOR: the counter name is checked before the first iteration, whatever the count -/
 theorem C20_counter_rejects (ctx : Ctx) (c : ClsDesc) (word : Str) (line : Nat) (a : Str) (block : List Node) (st : St)
     (hc : c.cname = "Repeat") (hfl : c.flipperOnly = false) (hreq : c.argReq = .required) (hstrip : c.strip = true)
